@@ -593,6 +593,65 @@ def r8_constructor(ctx, sym):
     constructor_rule(ctx, sym, 'R8', list(CONSTRUCTOR_DOMAIN))
 
 
+def r9_parent_kinds(ctx, sym):
+    ctx.rule('R9', "sibling agreement of Report.add_feedback / add_ignored_feedback, executed abstractly for every kind "
+                   "of parent a feedback may carry (None, a group name, a group number, a group object): the feedback "
+                   "is appended once to the right list, a group object is told about its child with the right "
+                   "outcome, and nothing raises for a parent given by name or number")
+    from .. import symexec
+    rmod = ctx.repo.module(REPORT)
+    for fname, list_attr, outcome in (('add_feedback', 'feedback', True), ('add_ignored_feedback', 'ignored_feedback',
+                                                                          False)):
+        fn = rmod.func('Report.' + fname)
+        ctx.analysed_function(rmod, fn)
+        for pname in ('None', 'name', 'number', 'group-object'):
+            rec = symexec.Recorder()
+            group = Obj('group')
+            symexec.method(group, '_get_child_feedback', rec.stub('_get_child_feedback'))
+            parent = {'None': None, 'name': 'question-1', 'number': 3, 'group-object': group}[pname]
+            fb = Obj('feedback', parent=parent)
+            fb.attrs['__closed__'] = True
+            me = symexec.self_obj(rmod, 'Report', feedback=[], ignored_feedback=[])
+            symexec.method(me, 'execute_hooks', lambda *a, **k: None)
+            fd = symexec.new_fd(sym, rmod, calls={'isinstance': lambda o, t: isinstance(o, t) if isinstance(
+                t, (type, tuple)) and all(isinstance(x, type) for x in (t if isinstance(t, tuple) else (t,))) else False})
+            _, raised = symexec.run(fd, fn, [fb], bound_self=me, what='Report.' + fname)
+            told = rec.named('_get_child_feedback')
+            ok = raised is None and me.attrs[list_attr] == [fb] and (
+                (len(told) == 1 and told[0][1][:1] == (fb,) and told[0][1][1:2] == (outcome,))
+                if pname == 'group-object' else not told)
+            ctx.check(ok, 'R9', '%s[parent=%s]' % (fname, pname), rmod, fn,
+                      "%s of a feedback whose parent is %s: %s; list %r, group told %r" % (
+                          fname, {'None': 'None', 'name': "a group name ('question-1')", 'number': 'a group number (3)',
+                                  'group-object': 'a group object'}[pname],
+                          'raises %s (%s)' % (raised.kind, raised.detail) if raised is not None else 'returns',
+                          [getattr(x, '_name', x) for x in me.attrs[list_attr]], [t[1][1:2] for t in told]),
+                      "Feedback(activate=False, parent='question-1') raises AttributeError ('str' object has no "
+                      "attribute '_get_child_feedback') although neither the condition nor the message raised")
+
+
+def r10_logging_commands(ctx, sym):
+    ctx.rule('R10', "the logging commands log()/debug(), executed abstractly: every item given becomes the message of "
+                    "one feedback (the delivered message is the explicit message)")
+    from .. import symexec
+    cmod = ctx.repo.module('pedal.core.commands')
+    for cname, items, want in (('log', ('a', 5), ['a 5']), ('debug', ('hello',), ['hello']),
+                               ('debug', ('x', 'y'), ['x', 'y'])):
+        fn = cmod.func(cname)
+        ctx.analysed_function(cmod, fn)
+        rec = symexec.Recorder()
+        fd = symexec.new_fd(sym, cmod, calls={'feedback': rec.stub('feedback', ret=Obj('feedback')),
+                                              'Feedback': rec.stub('feedback', ret=Obj('feedback')),
+                                              'isinstance': lambda o, t: isinstance(o, t) if isinstance(t, type) else False,
+                                              'str': str})
+        _, raised = symexec.run(fd, fn, list(items), what='commands.' + cname)
+        got = [e[2].get('message') for e in rec.named('feedback')]
+        ctx.check(raised is None and got == want, 'R10', '%s%r' % (cname, items), cmod, fn,
+                  "%s%r creates feedback with message(s) %r%s; expected %r" % (
+                      cname, items, got, '' if raised is None else ' (raises %s)' % raised.kind, want),
+                  "debug('hello') records 'No feedback message provided'")
+
+
 def run(ctx):
     sym = Symbols(ctx.repo)
     r1_ownership(ctx, sym)
@@ -602,4 +661,6 @@ def run(ctx):
     r6_formatter_dispatch(ctx, sym)
     r7_overrides(ctx, sym)
     r8_constructor(ctx, sym)
+    r9_parent_kinds(ctx, sym)
+    r10_logging_commands(ctx, sym)
     ctx.assume("correctness of each formatter's output text is not decided")
